@@ -467,8 +467,12 @@ fn run_bridge(cases: &[Value], out: &mut NdjsonOut, shard: (usize, usize), hash_
                     if rng.below(3) == 0 {
                         h.extension = Some(RtpHeaderExtension::new(0xBEDE, vec![0x10, 0xAA, 0, 0]));
                     }
-                    let n = 1 + rng.below(30) as usize;
-                    let p = RtpPacket::new(h, rng.bytes(n));
+                    // the payload starts with the step number: outputs are matched to steps by content,
+                    // so a packet that went to the wrong target is recognised as such
+                    let n = rng.below(30) as usize;
+                    let mut pl = vec![sent.len() as u8, 0xC1, 0x9C];
+                    pl.extend(rng.bytes(n));
+                    let p = RtpPacket::new(h, pl);
                     sent.push(Some(p.clone()));
                     src.receive(Bytes::from(p.marshal().unwrap()), "127.0.0.1:5000".parse().unwrap(), &mut buf).await;
                 }
@@ -485,7 +489,6 @@ fn run_bridge(cases: &[Value], out: &mut NdjsonOut, shard: (usize, usize), hash_
             Ok(x) => x,
         };
         let nfwd = st.iter().filter(|s| is_fwd(s)).count();
-        let exp_v = st.iter().filter(|s| is_fwd(s) && s["tgt"].as_u64().unwrap_or(1) == 2).count();
         if got_a.len() + got_v.len() != nfwd {
             // a packet the bridge took was not forwarded (or forwarded twice): the output is not the
             // arrival-ordered consecutive stream
@@ -494,34 +497,51 @@ fn run_bridge(cases: &[Value], out: &mut NdjsonOut, shard: (usize, usize), hash_
                              "observed": got_a.len() + got_v.len(), "allowed": [nfwd], "case": c}));
             continue;
         }
-        if got_v.len() != exp_v {
-            // beyond the statement: the target is chosen from the original payload type
+        // step number -> (arrived at the video target?, packet)
+        let mut by_step: std::collections::HashMap<u8, (bool, &Result<RtpPacket, String>)> = Default::default();
+        let mut unparsable = None;
+        for (to_v, list) in [(false, &got_a), (true, &got_v)] {
+            for g in list.iter() {
+                match g {
+                    Ok(p) if p.payload.len() >= 3 && p.payload[1] == 0xC1 && p.payload[2] == 0x9C => {
+                        by_step.insert(p.payload[0], (to_v, g));
+                    }
+                    Ok(_) => unparsable = Some("forwarded datagram does not carry the payload that was sent".to_string()),
+                    Err(e) => unparsable = Some(e.clone()),
+                }
+            }
+        }
+        if let Some(er) = unparsable {
+            // beyond the statement (payload integrity), unless nothing can be compared at all
             drift += 1;
-            out.push(&json!({"type": "divergence", "case_idx": idx, "rule": "EXT", "field": "target",
-                             "observed": {"audio": got_a.len(), "video": got_v.len()},
-                             "allowed": [{"audio": nfwd - exp_v, "video": exp_v}], "case": c}));
+            out.push(&json!({"type": "divergence", "case_idx": idx, "rule": "EXT", "field": "payload", "observed": er, "case": c}));
             continue;
         }
         // per-source constants learnt from the first packet when the initial values are left to the code
         let mut base: std::collections::HashMap<u32, (u16, u32)> = Default::default();
         let mut case_drift = false;
-        let (mut ia, mut iv) = (0usize, 0usize);
         for (k, s) in st.iter().enumerate() {
             if !is_fwd(s) {
                 base.clear();
                 continue;
             }
             let e = &s["exp"];
-            let to_v = s["tgt"].as_u64().unwrap_or(1) == 2;
-            let gr = if to_v { iv += 1; &got_v[iv - 1] } else { ia += 1; &got_a[ia - 1] };
+            let Some((went_v, gr)) = by_step.get(&(k as u8)) else {
+                divs += 1;
+                out.push(&json!({"type": "divergence", "case_idx": idx, "rule": "SeqConsecutive", "field": "missing", "step": k,
+                                 "observed": "a packet was forwarded twice and another not at all", "case": c}));
+                break;
+            };
+            if *went_v != (s["tgt"].as_u64().unwrap_or(1) == 2) {
+                // beyond the statement: the target is chosen from the ORIGINAL payload type
+                case_drift = true;
+                out.push(&json!({"type": "divergence", "case_idx": idx, "rule": "EXT", "field": "target", "step": k,
+                                 "observed": if *went_v { "video" } else { "audio" },
+                                 "allowed": [if *went_v { "audio" } else { "video" }], "case": c}));
+            }
             let g = match gr {
                 Ok(p) => p,
-                Err(er) => {
-                    divs += 1;
-                    out.push(&json!({"type": "divergence", "case_idx": idx, "rule": "StableMap", "field": "parse", "step": k,
-                                     "observed": er, "case": c}));
-                    break;
-                }
+                Err(_) => unreachable!(),
             };
             let sp = sent[k].as_ref().unwrap();
             let src_ssrc = u32_of(&s["src"]);
